@@ -12,6 +12,7 @@ None0 == DN(0, 0, 0)
 dRho   == DN(1, -3, 0)   dVel == DN(0, 1, -1)   dPrs == DN(1, -1, -2)   dSie == DN(0, 2, -2)
 Len_  == DN(0, 1, 0)    dTim == DN(0, 0, 1)
 dTmp   == <<Q0, Q0, Q0, Q1>>
+dGam   == <<Q0, <<2, 1>>, <<-2, 1>>, <<-1, 1>>>>       \* Gamma T is a velocity squared
 
 HydroFields == [density |-> dRho, velocity |-> dVel, pressure |-> dPrs, specific_internal_energy |-> dSie, sound_speed |-> dVel]
 
@@ -28,6 +29,28 @@ DimPar(f, p, g) ==
     [] f = "Cog1"  -> [rho0 |-> <<Q1, QSub(<<-3, 1>>, p.b), QAdd(p.b, QAdd(k, Q1)), Q0>>,
                        temp0 |-> <<Q0, p.b, QNeg(QSub(p.b, QMul(QSub(p.gamma, Q1), QAdd(k, Q1)))), Q1>>,
                        Gamma |-> <<Q0, <<2, 1>>, <<-2, 1>>, <<-1, 1>>>>, b |-> None0, gamma |-> None0, geometry |-> None0]
+    [] f = "Cog2"  -> [rho0 |-> <<Q1, QSub(<<-3, 1>>, p.b), QDiv(QMul(<<2, 1>>, QAdd(p.b, QAdd(k, Q1))), QAdd(<<2, 1>>, QMul(QSub(p.gamma, Q1), QAdd(k, Q1)))), Q0>>,
+                       Gamma |-> dGam, b |-> None0, gamma |-> None0, geometry |-> None0]
+    [] f \in {"Cog4", "Cog12"} ->                                       \* rho0 r^(-2k/(gamma+1)), u0 r^(-k(gamma-1)/(gamma+1))
+                      [rho0 |-> <<Q1, QAdd(<<-3, 1>>, QDiv(QMul(<<2, 1>>, k), QAdd(p.gamma, Q1))), Q0, Q0>>,
+                       u0 |-> <<Q0, QAdd(Q1, QDiv(QMul(k, QSub(p.gamma, Q1)), QAdd(p.gamma, Q1))), <<-1, 1>>, Q0>>,
+                       Gamma |-> dGam, gamma |-> None0, beta |-> None0, geometry |-> None0]
+    [] f = "Cog5"  -> [rho0 |-> DN(1, -1, 0), u0 |-> DN(0, 1, -2), Gamma |-> dGam]
+    [] f = "Cog6"  -> [rho0 |-> <<Q1, QSub(<<-3, 1>>, p.b), QAdd(QAdd(k, Q1), p.b), Q0>>, tau |-> dTim, Gamma |-> dGam, b |-> None0, geometry |-> None0]
+    [] f = "Cog9"  -> LET e1 == QDiv(QAdd(QMul(<<2, 1>>, p.beta), QAdd(k, <<7, 1>>)), p.alpha)                      \* rho ~ r^-e1 t^-e2
+                          e2 == QDiv(QMul(<<2, 1>>, QSub(QMul(p.alpha, QAdd(k, Q1)), QAdd(QMul(<<2, 1>>, p.beta), QAdd(k, <<7, 1>>)))),
+                                     QMul(p.alpha, QAdd(<<2, 1>>, QMul(QSub(p.gamma, Q1), QAdd(k, Q1)))))
+                      IN [rho0 |-> <<Q1, QAdd(<<-3, 1>>, e1), e2, Q0>>, Gamma |-> dGam, alpha |-> None0, beta |-> None0, gamma |-> None0, geometry |-> None0]
+    [] f = "Cog11" -> LET m == QMul(QSub(p.gamma, Q1), QAdd(k, Q1)) IN       \* rho0 r^(m-2) t^(1-k-m), T0 r^(2-m) t^-2
+                      [rho0 |-> <<Q1, QSub(<<-3, 1>>, QSub(m, <<2, 1>>)), QNeg(QSub(QSub(Q1, k), m)), Q0>>,
+                       temp0 |-> <<Q0, QNeg(QSub(<<2, 1>>, m)), <<2, 1>>, Q1>>, Gamma |-> dGam, beta |-> None0, gamma |-> None0, geometry |-> None0]
+    [] f = "Cog18" -> LET e1 == QDiv(QAdd(QMul(<<2, 1>>, p.beta), QAdd(k, <<7, 1>>)), p.alpha)
+                          pw == QAdd(QDiv(QNeg(QAdd(k, Q1)), <<2, 1>>), QDiv(e1, <<2, 1>>))                            \* (tau^2 - t^2)^pw
+                      IN [rho0 |-> <<Q1, QAdd(<<-3, 1>>, e1), QMul(<<-2, 1>>, pw), Q0>>, tau |-> dTim, Gamma |-> dGam,
+                          alpha |-> None0, beta |-> None0, geometry |-> None0]
+    [] f = "Cog19" -> [rho0 |-> dRho, u0 |-> dVel, Gamma |-> dGam, gamma |-> None0, geometry |-> None0]
+    [] f = "Cog20" -> [rho0 |-> dRho, u0 |-> dVel, a |-> DN(0, 0, -1), Gamma |-> dGam, gamma |-> None0, geometry |-> None0]
+    [] f = "Cog21" -> [rho0 |-> DN(1, 0, 0), temp0 |-> <<Q0, <<-3, 1>>, Q0, Q1>>, Gamma |-> dGam]
     [] f = "Cog8"  -> LET c1 == QDiv(QSub(k, Q1), QAdd(QSub(p.beta, p.alpha), <<4, 1>>))
                           c2 == QAdd(QAdd(k, Q1), c1)
                           c3 == QAdd(QMul(QSub(Q1, p.gamma), QAdd(k, Q1)), c1)
@@ -49,10 +72,12 @@ DimPar(f, p, g) ==
     [] f = "Hutchens1" -> [k |-> <<Q1, Q1, <<-3, 1>>, <<-1, 1>>>>, cp |-> <<Q0, <<2, 1>>, <<-2, 1>>, <<-1, 1>>>>,
                            rho |-> dRho, Tb |-> dTmp, T0 |-> dTmp, b |-> Len_]
 
+(* Coggeshall problems whose formulas contain no built-in radiation constants (and no parameter that is at once an exponent and a rate) *)
+CogUnits == {"Cog1", "Cog2", "Cog4", "Cog5", "Cog6", "Cog8", "Cog9", "Cog11", "Cog12", "Cog18", "Cog19", "Cog20", "Cog21"}
 (* dimension vectors of the returned fields *)
 DimField(f) ==
   CASE f \in {"Noh", "Noh2", "Sedov", "RiemannIG", "RiemannGen", "EHEP", "Mader", "Guderley"} -> HydroFields @@ [xdet |-> Len_]
-    [] f \in {"Cog1", "Cog8"} -> HydroFields @@ [temperature |-> dTmp]
+    [] f \in CogUnits -> HydroFields @@ [temperature |-> dTmp]
     [] f = "EPpiston" -> HydroFields @@ [deviatoric_stress |-> dPrs]
     [] f \in {"Kenamond1", "Kenamond2", "Kenamond3", "DSDcyl"} -> [burntime |-> dTim]
     [] f = "Blake" -> [curr_posn |-> Len_, displacement |-> Len_, strain_rr |-> None0, strain_qq |-> None0, strain_vol |-> None0,
@@ -64,7 +89,7 @@ DimField(f) ==
 Group(f) ==
   CASE f = "Noh2" -> {"M", "L"}                       \* u(r,0) = -r fixes the unit of time
     [] f \in {"Kenamond1", "Kenamond2", "Kenamond3", "DSDcyl"} -> {"L", "T"}
-    [] f \in {"Cog1", "Cog8", "Hutchens1"} -> {"M", "L", "T", "K"}
+    [] f \in CogUnits \cup {"Hutchens1"} -> {"M", "L", "T", "K"}
     [] f = "Rod1D" -> {"L", "T", "K"}
     [] f = "Guderley" -> {"M"}                          \* r_shock = (-t_L)^(1/lambda) carries a dimensional constant 1: only the unit of mass is free
     [] OTHER -> {"M", "L", "T"}
